@@ -7,7 +7,9 @@
 (* and re-targeted to the current state; misbehaviour (valid with either   *)
 (* path encoding, and mutated) is submitted late in the walk and always    *)
 (* six steps before its end, after which every further request must be     *)
-(* refused.                                                                *)
+(* refused.  Proof verifications carry the claimed proof height (current   *)
+(* sequence or zero); replays are also presented at the height their       *)
+(* signature was made at, at the zero height and at the current sequence.  *)
 (***************************************************************************)
 EXTENDS SoloMachine, Json
 
@@ -35,8 +37,8 @@ Next ==
        \E plan \in { IF Len(sched) = Depth - 6      \* forced ending: misbehaviour (freeze), then four more requests
                      THEN (IF roll <= 50 THEN <<mr, mk, h, c, o, h1>> ELSE <<mm, mk, h, c, o, h1>>)
                      ELSE IF todo # <<>> THEN todo
-                     ELSE IF roll <= 50 THEN <<h1, h2, h, h>>
-                     ELSE IF roll <= 65 THEN <<o, [c EXCEPT !.sig = o.sig]>>
+                     ELSE IF roll <= 50 THEN <<h1, h2, h, h, IF roll <= 25 THEN AtSigSeq(h) ELSE AtZero(h)>>
+                     ELSE IF roll <= 65 THEN <<o, AtSigSeq(o), AtCurrent(S, o), [c EXCEPT !.sig = o.sig]>>
                      ELSE IF roll <= 78 THEN <<mm>>
                      ELSE IF roll <= 78 + MISB_PCT /\ 3 * Len(sched) > 2 * Depth THEN <<mm, m>>
                      ELSE <<[c EXCEPT !.sig = g]>> } :
